@@ -183,4 +183,6 @@ def run(repo, tier):
     res.floor('A2', 50)
     res.floor('FWD', 10)
     res.floor('loops-examined', 8)
+    from .common import run_clone_pairs
+    run_clone_pairs(repo, res, {m for m in repo.modules if m.startswith('photutils.aperture') and '.tests' not in m})
     return res
